@@ -348,6 +348,11 @@ class Run:
     def harness_died(self, label, hmodule, cases_file, p, tmodule, cfg_tmpl, replay_args, env=None):
         """The harness process died or hung on a batch: bisect to the single case."""
         log("  harness died on %s (rc=%s): %s" % (label, p.returncode, p.stderr[-600:].replace("\n", " | ")))
+        if getattr(self, "fatal_race_is_violation", False) and "fatal error: concurrent map" in (p.stderr or ""):
+            # the Go runtime detected unsynchronised map access (not recoverable, not deterministic): a data race
+            i = p.stderr.index("fatal error: concurrent map")
+            self.violation(label, dict(kind="data-race", gen_seed=self.seed), dict(kind="race-detector-report", report=p.stderr[i:i + 6000]))
+            return
         lines = [x for x in open(cases_file) if x.strip()]
         lo, hi = 0, len(lines)
         d = tempfile.mkdtemp(prefix="bisect-", dir=self.work)
